@@ -75,6 +75,7 @@ func checkMain(args []string) {
 	verif := fs.String("verif", "/verif", "verif root")
 	verbose := fs.Bool("v", false, "verbose")
 	pin := fs.Bool("pin", false, "rewrite the obligation pins for this property")
+	evDir := fs.String("evidence-dir", "", "write evidence and replays here instead of <verif>/evidence (selftest runs)")
 	if len(args) == 0 {
 		fmt.Fprintln(os.Stderr, "usage: govc check <property> [--tier quick|thorough]")
 		os.Exit(2)
@@ -116,9 +117,12 @@ func checkMain(args []string) {
 	prog, err := LoadProgram(*repo, cfg.Packages, filepath.Join(*verif, "contracts", "extern"))
 	violations := 0
 	replayDir := filepath.Join(*verif, "replays", prop)
+	if *evDir != "" {
+		replayDir = filepath.Join(*evDir, "replays", prop)
+	}
 	os.RemoveAll(replayDir)
 	os.MkdirAll(replayDir, 0o755)
-	ev := &Evidence{PropertyID: prop, Tier: *tier, Seed: seed, Level: cfg.Level}
+	ev := &Evidence{PropertyID: prop, Tier: *tier, Seed: seed, Level: cfg.Level, dir: *evDir}
 	writeReplay := func(name string, content map[string]any) string {
 		p := filepath.Join(replayDir, sanitize(name)+".json")
 		b, _ := json.MarshalIndent(content, "", " ")
@@ -139,7 +143,7 @@ func checkMain(args []string) {
 	var order []string
 	for _, name := range prog.contracts.Order {
 		c := prog.contracts.Funcs[name]
-		if c.Kind != "func" || c.Trusted {
+		if c.Kind != "func" || c.Trusted || (c.Inline && len(c.Ensures) == 0) {
 			continue
 		}
 		for _, p := range c.Props {
@@ -166,10 +170,21 @@ func checkMain(args []string) {
 		if r.VC != nil {
 			for cn := range r.VC.usedCon {
 				cc := prog.contracts.Funcs[cn]
-				if cc != nil && cc.Kind == "func" && !cc.Trusted && len(cc.Props) == 0 && !done[cn] {
+				if cc != nil && cc.Kind == "func" && !cc.Trusted && len(cc.Props) == 0 && !done[cn] && !(cc.Inline && len(cc.Ensures) == 0) {
 					queue = append(queue, cn)
 				}
 			}
+		}
+	}
+	seenSpec := map[string]bool{}
+	for i := 0; i < len(results); i++ {
+		for _, sc := range results[i].SpecChecks {
+			key := prog.funcName(sc.fn) + "@" + sc.spec.Name
+			if seenSpec[key] {
+				continue
+			}
+			seenSpec[key] = true
+			results = append(results, prog.verifySpec(sc))
 		}
 	}
 	// lemmas
@@ -180,7 +195,26 @@ func checkMain(args []string) {
 			}
 		}
 	}
+	// only this property's obligations are discharged
+	for _, r := range results {
+		var keep []*Obligation
+		for _, o := range r.Obligations {
+			ok := len(o.Props) == 0
+			for _, p := range o.Props {
+				if p == prop {
+					ok = true
+				}
+			}
+			if ok {
+				keep = append(keep, o)
+			}
+		}
+		r.Obligations = keep
+	}
 	workDir := filepath.Join(*verif, "work", prop)
+	if *evDir != "" {
+		workDir = filepath.Join(*evDir, "work", prop)
+	}
 	os.RemoveAll(workDir)
 	solveStart := time.Now()
 	discharge(results, workDir, timeout, thorough, 16)
@@ -203,8 +237,22 @@ func checkMain(args []string) {
 	}
 	aggs := map[string]*agg{}
 	var aggOrder []string
+	forProp := func(o *Obligation) bool {
+		if len(o.Props) == 0 {
+			return true
+		}
+		for _, p := range o.Props {
+			if p == prop {
+				return true
+			}
+		}
+		return false
+	}
 	for _, r := range results {
 		for _, o := range r.Obligations {
+			if !forProp(o) {
+				continue
+			}
 			a := aggs[o.Name]
 			if a == nil {
 				a = &agg{name: o.Name, kind: o.Kind, clause: o.Clause, fn: o.Func, ok: true, solver: map[string]int{}, ground: o.Ground}
@@ -576,6 +624,7 @@ type Evidence struct {
 	Assumptions []string `json:"assumptions"`
 	WallS       float64  `json:"wall_s"`
 	Violations  int      `json:"violations"`
+	dir         string
 }
 
 func (ev *Evidence) finish(verif string, start time.Time, violations int, note string) {
@@ -616,7 +665,11 @@ func (ev *Evidence) finish(verif string, start time.Time, violations int, note s
 			}
 		}
 	}
-	os.MkdirAll(filepath.Join(verif, "evidence"), 0o755)
+	out := filepath.Join(verif, "evidence")
+	if ev.dir != "" {
+		out = filepath.Join(ev.dir, "evidence")
+	}
+	os.MkdirAll(out, 0o755)
 	b, _ := json.MarshalIndent(ev, "", " ")
-	os.WriteFile(filepath.Join(verif, "evidence", ev.PropertyID+".json"), b, 0o644)
+	os.WriteFile(filepath.Join(out, ev.PropertyID+".json"), b, 0o644)
 }
